@@ -37,6 +37,7 @@ class Ctx:
         self._types = None
         self.obligations = []      # dicts
         self.findings = []
+        self.unreadable = []      # findings withheld because the function calls opaque new helpers
         self.infos = []
         self.rules_run = []
         self.functions = set()
@@ -79,8 +80,46 @@ class Ctx:
                                  'holds' if ok else ('unknown' if ok is None else 'VIOLATED'),
                                  'definite': bool(definite and ok is not None)})
         if ok is False:
+            opaque = self._opaque_helpers(f)
+            if opaque:
+                # the function (still) calls helpers that did not exist on the pinned tree and
+                # could not be read in place: what a structural rule misses here may simply be
+                # inside them, so a finding is not reliable - the run ends without a verdict
+                self.obligations[-1]['verdict'] = 'unknown'
+                self.obligations[-1]['definite'] = False
+                self.unreadable.append('%s -- %s: %s calls the helper(s) %s introduced after the '
+                                       'pinned tree, which the program model could not inline'
+                                       % (rule, key[:60], func, ', '.join(sorted(opaque))))
+                return None
             self.findings.append(Finding(rule, file, func, key, why or what, line))
         return ok
+
+    def _opaque_helpers(self, f):
+        if f is None or not hasattr(f, 'node'):
+            return ()
+        cache = self.__dict__.setdefault('_opaque_cache', {})
+        k = id(f.node)
+        if k not in cache:
+            import ast as _ast
+            from .inline import PINNED_PRIVATE
+            mod = getattr(f, 'module', None)
+            known = set()
+            if mod is not None:
+                known |= set(getattr(mod, 'functions', {}))
+                for ci in getattr(mod, 'classes', {}).values():
+                    known |= set(getattr(ci, 'methods', {}))
+            out = set()
+            for n in _ast.walk(f.node):
+                if isinstance(n, _ast.Call):
+                    fn = n.func
+                    nm = fn.id if isinstance(fn, _ast.Name) else (
+                        fn.attr if isinstance(fn, _ast.Attribute) and
+                        isinstance(fn.value, _ast.Name) and fn.value.id == 'self' else None)
+                    if nm and nm.startswith('_') and not nm.startswith('__') and \
+                            nm not in PINNED_PRIVATE and nm in known:
+                        out.add(nm)
+            cache[k] = out
+        return cache[k]
 
     def info(self, rule, msg):
         self.infos.append({'rule': rule, 'info': msg})
